@@ -3,6 +3,7 @@
   Property theorems about CM.Model.Rel (tied to /repo by the S-REL correspondence).
 -/
 import CM.Proofs.SwitchDen
+import CM.Proofs.Merge
 import CM.Model.Merge
 import CM.Proofs.RelLemmas
 namespace CM.C14
@@ -110,5 +111,36 @@ theorem node_switch_unknown (d : DenCfg) (table : List (Val × Nat)) (key : BTer
     ((BTerm.node (.switch table) (key :: branches)).den d).h = .error .valueError ∧
     ((BTerm.node (.switch table) (key :: branches)).den d).v = .error .valueError :=
   switch_unknown d table key branches v hk hl
+
+/-- **Node level: what a field of the merged container computes.**  For every routing table and any number of well-formed parts
+with one input each: under a name `x` (other than the keys) that every part exposes, the container `Merge._merge_containers` builds
+computes the switch over the key input and exactly the parts' own terms, in the order of the parts (each part embedded unchanged:
+`den_embed`, the frozen copies occupying disjoint ranges of identities). -/
+theorem node_merge_field {table : List (Val × Nat)} {parts0 : List Bag} {keysName : String} {b : Bag}
+    (h : mergeBags table parts0 keysName = .ok b) (hw : ∀ p ∈ parts0, p.WF)
+    (x : String) (hx : x ≠ keysName) (outs0 : List BNode) (ts : List BTerm)
+    (hlo : outs0.length = parts0.length) (hlt : ts.length = parts0.length)
+    (hf : ∀ k (hk : k < parts0.length), outs0[k]'(hlo ▸ hk) ∈ parts0[k].outputs ∧ (outs0[k]'(hlo ▸ hk)).name = x ∧
+      BDen parts0[k] (outs0[k]'(hlo ▸ hk)) (ts[k]'(hlt ▸ hk))) :
+    ∃ inName, b.Field x (.node (.switch table) (.inp inName :: ts)) :=
+  merge_field h hw x hx outs0 ts hlo hlt hf
+
+/-- **Merge routes every id to the dataset that owns it** (node level, end to end): under the hypotheses of `node_merge_field`, if the
+key input is bound to `v` and the routing table sends `v` to part `idx`, the merged field has the node hash of that part's field (so
+caches are shared with the unmerged dataset) and, whenever that hash exists, its value. -/
+theorem node_merge_is_owner {table : List (Val × Nat)} {parts0 : List Bag} {keysName : String} {b : Bag}
+    (h : mergeBags table parts0 keysName = .ok b) (hw : ∀ p ∈ parts0, p.WF)
+    (x : String) (hx : x ≠ keysName) (outs0 : List BNode) (ts : List BTerm)
+    (hlo : outs0.length = parts0.length) (hlt : ts.length = parts0.length)
+    (hf : ∀ k (hk : k < parts0.length), outs0[k]'(hlo ▸ hk) ∈ parts0[k].outputs ∧ (outs0[k]'(hlo ▸ hk)).name = x ∧
+      BDen parts0[k] (outs0[k]'(hlo ▸ hk)) (ts[k]'(hlt ▸ hk)))
+    (d : DenCfg) (v : Val) (idx : Nat) (hidx : idx < parts0.length) (hl : tableLookup table v = some idx)
+    (henv : ∀ n, d.env n = some v) :
+    ∃ t, b.Field x t ∧ (t.den d).h.map (·.1) = ((ts[idx]'(hlt ▸ hidx)).den d).h.map (·.1) ∧
+      (∀ hh, ((ts[idx]'(hlt ▸ hidx)).den d).h = .ok hh → (t.den d).v = ((ts[idx]'(hlt ▸ hidx)).den d).v) := by
+  obtain ⟨inName, hfield⟩ := merge_field h hw x hx outs0 ts hlo hlt hf
+  refine ⟨_, hfield, ?_⟩
+  have hk : ((BTerm.inp inName).den d).v = .ok v := by simp [BTerm.den, henv inName]
+  exact switch_den d table (.inp inName) ts v idx _ hk hl (by simp [hlt ▸ hidx])
 
 end CM.C14
